@@ -126,7 +126,7 @@ BUS_PROPS = {
     'C17': dict(oracle=lambda F, w: oracle.c17(F, w),
                 profiles=[('wal', 4), ('wal_faults', 3), ('wal_enum', 3)]),
     'C18': dict(oracle=lambda F, w: oracle.c18(F, w),
-                profiles=[('expect', 1)]),
+                profiles=[('expect', 3), ('expect_enum', 2)]),
     'C16': dict(oracle=lambda F, w: oracle.c16(F),
                 profiles=[('stop', 3), ('stop_enum', 3)]),
 }
